@@ -194,3 +194,23 @@ TEXT["C07"] = dict(
          "harness's snapshots (and the race detector in the thorough tier), not proved. Trusted: Coq kernel + vm_compute; the harness",
     technique="Coq proof (invariant by induction over histories of a heap model with write logs) + differential correspondence on histories + snapshot oracles",
 )
+
+
+TEXT["C06"] = dict(
+    text="Theorems (Coq kernel, no axioms): Runs g st outs is the inductive set of output sequences an invocation g(ctx,st,ss) can write over ALL "
+         "goroutine schedules (one rule per combinator of gomini/operators.go and ifthenelse.go: interleavings for DisjO/Mplus, per-answer binds "
+         "for ConjO/Bind, ExistO, IfThenElseO); C06_multiset: every such sequence is a permutation of the sequential answer list gseq (no answer "
+         "lost, duplicated or invented), hence any two schedules agree; the sequential order is itself a schedule (the search can finish, after "
+         "which the creator closes the stream); C06_infinite_sound: every state of every PARTIAL run under any schedule extends the input, is "
+         "consistent and satisfies the goal's formula; same multiset as the micro search for programs both engines run; ChanKernel: in every "
+         "reachable configuration of the channel/WaitGroup protocol of a DisjO node no send hits a closed channel, the channel is closed once, "
+         "the WaitGroup counter is never negative and close happens after all writers returned, a configuration whose consumer keeps reading is "
+         "never stuck (refuted when Add is done inside the child goroutine). Tie: generated goal programs built with the REAL gomini combinators "
+         "and run through gomini.Run under GOMAXPROCS {1,2,4,16} x injected yields/sleeps x placeholder policy x routine limit: answer multiset "
+         "against gseq evaluated in Coq and a reference search, all schedules agree, channel closed after the last answer; for infinite searches "
+         "the first n answers must satisfy the formula.",
+    note="partial: the Go scheduler, channel implementation, memory model, the limiter and cancellation races are runtime; the theorems quantify over "
+         "all schedules of the model's step relations, the harness samples real ones (and runs under the race detector in the thorough tier). "
+         "Trusted: Coq kernel + vm_compute; the harness",
+    technique="Coq proof (induction over the schedule-indexed Runs relation against a list-monad reference; invariant over all label sequences of a channel/WaitGroup LTS) + differential correspondence under schedule sweeps",
+)
